@@ -51,6 +51,60 @@ TASK_NUM = ["clients", "wi", "it", "wtp", "tp", "ru", "tput", "bulk"]
 EL_NUM = ["cap", "wi", "it", "wtp", "tp", "ru"]
 KEY = {"clients": "clients", "cap": "clients", "wi": "warmup-iterations", "it": "iterations", "wtp": "warmup-time-period", "tp": "time-period", "ru": "ramp-up-time-period"}
 
+# ---------------------------------------------------------------------------------------------------
+# operation parameters with text that is special to re replacement templates / Jinja / JSON
+# ---------------------------------------------------------------------------------------------------
+# A text travels NEXT TO the abstract file (the rules and the transcription of the loader do not depend on it):
+#   txt = {"ops": [{"i": k, "lit": <JSON string literal as it stands in the file>}],            k-th entry of the operations section
+#          "tasks": [{"c": c, "e": e, "i": i, "lit": ...}]}                                       inline operation of task c/e/i
+# render() writes  "verbatim-text": <lit>  into that operation (wherever the operation lives: track.json or an included part
+# of the first / second level); what was WRITTEN is json.loads(lit), handed to TLC as the sequence of its UTF-8 bytes;
+# what was LOADED is params["verbatim-text"] of the operation each task of the returned Track executes (project_text).
+TEXT_KEY = "verbatim-text"  # a parameter the schema does not constrain
+TEXT_POOL = [
+    r'"\\d+\\.log"',  # regexp query: \d+\.log
+    r'"C:\\\\logs\\\\*"',  # Windows path with doubled separators: C:\\logs\\*
+    r'"caf\u00e9 \u20ac \ud83d\ude00"',  # JSON \u escapes (incl. a surrogate pair)
+    r'"line1\nline2\ttab\r\b\f"',  # JSON control-character escapes
+    r'"\\g<0> and \\g<1> \\g<name>"',  # re group references by name / number
+    r'"\\1 \\2 \\0 \\10"',  # re numeric back references / octal escapes
+    r'"$1 ${name} $$ \\$"',  # replacement syntax of other engines
+    r'"say \"hi\" \/ done"',  # escaped double quote and solidus
+    r'"[0-9]\\d+\\s*\\w\\b\\A\\Z"',  # regexp character classes
+    r""""}} %} #} { { & < > ' ` ~ | ^" """.strip(),  # closing Jinja delimiters, HTML specials
+    r'"plain text"',
+    r'"trailing backslash \\"',
+    '"ração ☃ é"',  # non-ASCII characters written directly (UTF-8 in the file)
+    r'"\\\\server\\share\\new\\table"',  # UNC path (backslash-backslash-server-backslash-share ...)
+    r'"\\u00e9 is no escape, a\\nb neither, \\t \\x41 \\N{DASH}"',  # a backslash followed by a letter, as text
+    r'"{\"query\": {\"regexp\": {\"path\": \"\\\\/var\\\\/log\\\\/.*\\\\.log\"}}}"',  # JSON inside a JSON string
+]
+WEIRD_TEXT = [-99]  # a loaded value that is not a string
+
+
+def text_bytes(v):
+    """str -> the sequence of its UTF-8 bytes (what TLC compares)"""
+    if not isinstance(v, str):
+        return list(WEIRD_TEXT)
+    return list(v.encode("utf-8", errors="surrogatepass"))
+
+
+def written_text(lit):
+    """what the file says: the JSON string literal decoded by the json module"""
+    v = json.loads(lit)
+    if not isinstance(v, str) or "{{" in lit or "{%" in lit or "{#" in lit:
+        raise tlc.MachineryError("trackgen: %r is not a JSON string literal free of Jinja opening delimiters" % lit)
+    return text_bytes(v)
+
+
+def texts_for_trace(txt):
+    """txt (literals) -> the record TLC sees (bytes)"""
+    txt = txt or {"ops": [], "tasks": []}
+    return {
+        "ops": [{"i": x["i"], "w": written_text(x["lit"])} for x in txt["ops"]],
+        "tasks": [{"c": x["c"], "e": x["e"], "i": x["i"], "w": written_text(x["lit"])} for x in txt["tasks"]],
+    }
+
 
 # ---------------------------------------------------------------------------------------------------
 # TLC state -> F
@@ -270,6 +324,9 @@ def _task_obj(t, d, pos, style):
             op["name"] = _real(t["op"])
         if _is_set(t["bulk"]):
             op["bulk-size"] = _num(t["bulk"])
+        lit = style.get("_txt_tasks", {}).get(pos)
+        if lit is not None:
+            op[TEXT_KEY] = Raw(lit)
         _macro(op, t["xp"])
         if d["k"] == "inlNoType" and pos == (d["c"], d["e"], d["t"]):
             del op["operation-type"]
@@ -356,11 +413,15 @@ def _collect(pattern, style):
 DEFAULT_STYLE = {"shuffle": False, "collect": "spaced", "version": True, "tag_string": False, "descriptions": False, "split_ops": False, "seed": 0}
 
 
-def render(F, root, style=None):
-    """Writes the track directory for F below root (which is emptied first). Returns the list of files written."""
+def render(F, root, style=None, txt=None):
+    """Writes the track directory for F below root (which is emptied first). Returns the list of files written.
+    txt: texts written as the parameter TEXT_KEY of operations (see TEXT_POOL)."""
     import random
 
     style = dict(DEFAULT_STYLE, **(style or {}))
+    txt = txt or {"ops": [], "tasks": []}
+    style["_txt_tasks"] = {(x["c"], x["e"], x["i"]): x["lit"] for x in txt["tasks"]}
+    txt_ops = {x["i"]: x["lit"] for x in txt["ops"]}
     rnd = random.Random(style["seed"])
     ser = _Ser(rnd, style["shuffle"])
     # keep the directories (removing them is slow on the scratch file system), remove stale files
@@ -447,6 +508,8 @@ def render(F, root, style=None):
             o = {"name": _real(op["name"]), "operation-type": op["type"]}
             if _is_set(op["bulk"]):
                 o["bulk-size"] = _num(op["bulk"])
+            if oi + 1 in txt_ops:
+                o[TEXT_KEY] = Raw(txt_ops[oi + 1])
             _macro(o, op["xp"])
             if oi == 0 and _is_set(F["mac"]):
                 # a value written by a macro of an imported macro file
@@ -590,11 +653,27 @@ def load(root, F, sel="", via="read"):
     finally:
         _clean_tmp()
     core, extra = project(t)
-    return {"ok": True, "kind": "", "core": core, "extra": extra, "err": ""}
+    return {"ok": True, "kind": "", "core": core, "extra": extra, "txt": project_text(t), "err": ""}
 
 
 def _rejected(kind, ex):
-    return {"ok": False, "kind": kind, "core": [], "extra": [], "err": ("%s: %s" % (type(ex).__name__, ex))[:300]}
+    return {"ok": False, "kind": kind, "core": [], "extra": [], "txt": [], "err": ("%s: %s" % (type(ex).__name__, ex))[:300]}
+
+
+def project_text(t):
+    """[{c, e, i, w}]: for every task (challenge c, schedule element e, task i of the element) of the loaded Track whose
+    operation carries the parameter TEXT_KEY, the UTF-8 bytes of its value"""
+    from esrally.track import track
+
+    res = []
+    for c, ch in enumerate(t.challenges):
+        for e, el in enumerate(ch.schedule):
+            tasks = el.tasks if isinstance(el, track.Parallel) else [el]
+            for i, task in enumerate(tasks):
+                params = task.operation.params
+                if isinstance(params, dict) and TEXT_KEY in params:
+                    res.append({"c": c + 1, "e": e + 1, "i": i + 1, "w": text_bytes(params[TEXT_KEY])})
+    return res
 
 
 def _clean_tmp():
